@@ -44,5 +44,9 @@ dd7eb35 C13 C03
 cc7d7ae C06
 989c59c C16
 7fc86f4 C06 C15
+73f3e19 C03
+5b435ac C06 C03
+84ffd44 C03
+2a11884 C10
 L
 exit $bad
